@@ -138,17 +138,108 @@ def UnsetSafe (u : UC) (m : MM) : Prop :=
       ((keyCell u sc s (colExact sc.attrs kk.1)).2 = none ∨ (keyCell u tc t (colCI u tc.attrs kk.2)).2 = none) →
       cellMatch (canonCell (keyCell u sc s (colExact sc.attrs kk.1))) (canonCell (keyCell u tc t (colCI u tc.attrs kk.2))) = false
 
-/-- REFERENTIAL CELLS ARE BACKED BY LINKS: a row that carries a non-null value in some source key cell of an association
-    is linked across it (some row of the target class matches all its key cells).  This is the condition under which the
-    model's `BState.toMM` (which keeps the INSERT value of a referential cell) is what the implementation's `getattr`
-    returns after `populate_connections` removed the cell from `__dict__` (it then reads through the link, `None` when there
-    is none).  True of every model built through the API: an unrelated instance reads `None` in all its referential
-    attributes, a related one reads the identifying values of its partner. -/
-def RefsResolve (u : UC) (m : MM) : Prop :=
-  ∀ a ∈ m.assocs, ∀ sc tc, m.findClass u a.src.kind = some sc → m.findClass u a.tgt.kind = some tc →
-    ∀ s ∈ sc.rows,
-      (∃ k ∈ a.src.keys, isNullL (keyCell u sc s (colExact sc.attrs k)).1 (keyCell u sc s (colExact sc.attrs k)).2 = false) →
-      ∃ t ∈ tc.rows, rowsMatch u a sc tc s t = true
+/-- FIXED POINT OF READING THROUGH LINKS: what `getattr` returns for every cell after the load (`readRow`: referential
+    attributes are read from the partner across the association, `None` without partner) is the stored cell, up to unset ≡
+    null value of the type.  This is the condition under which the model's `BState.toMM` (which keeps the INSERT value of a
+    referential cell) is what the implementation shows.  A hand-written `INSERT INTO B VALUES (7, 5)` whose 5 refers to no
+    `A` violates it (the implementation reads 0, the model 5). -/
+def MM.ReadsFixed (u : UC) (m : MM) : Prop :=
+  ∀ c ∈ m.classes, ∀ s ∈ c.rows, canonVals u c.attrs (readRow u m c s) = canonVals u c.attrs s
+
+/-- what makes a metamodel a fixed point, in terms of its links: (partner) whenever a row has a partner across an
+    association, the partner's identifying value IS the row's stored referential value; (alone) a referential cell of a
+    row that has no partner across any of the associations it belongs to holds nothing or the null value of its type -/
+structure ReadsResolved (u : UC) (m : MM) : Prop where
+  partner : ∀ c ∈ m.classes, ∀ s ∈ c.rows, ∀ (i : Nat) (a : Name × Name), c.attrs[i]? = some a →
+    ∀ ap ∈ refOccurrences u m c.kind a.1, ∀ tc t, m.findClass u ap.1.tgt.kind = some tc →
+      tc.rows.find? (rowsMatch u ap.1 c tc s) = some t →
+      canonVal u a.2 (keyCell u tc t (colCI u tc.attrs ap.2)).2 = canonVal u a.2 ((s[i]?).join)
+  alone : ∀ c ∈ m.classes, ∀ s ∈ c.rows, ∀ (i : Nat) (a : Name × Name), c.attrs[i]? = some a →
+    refOccurrences u m c.kind a.1 ≠ [] →
+    (∀ ap ∈ refOccurrences u m c.kind a.1, ∀ tc, m.findClass u ap.1.tgt.kind = some tc →
+      tc.rows.find? (rowsMatch u ap.1 c tc s) = none) →
+    canonVal u a.2 none = canonVal u a.2 ((s[i]?).join)
+
+theorem readRef_canon (u : UC) (m : MM) (c : ClassM) (s : List (Option Val)) (ty : Name) (v : Option Val) :
+    ∀ (occ : List (AssocM × Name)),
+    (∀ ap ∈ occ, ∀ tc t, m.findClass u ap.1.tgt.kind = some tc → tc.rows.find? (rowsMatch u ap.1 c tc s) = some t →
+      canonVal u ty (keyCell u tc t (colCI u tc.attrs ap.2)).2 = canonVal u ty v) →
+    ((∀ ap ∈ occ, ∀ tc, m.findClass u ap.1.tgt.kind = some tc → tc.rows.find? (rowsMatch u ap.1 c tc s) = none) →
+      canonVal u ty none = canonVal u ty v) →
+    canonVal u ty (readRef u m c s occ) = canonVal u ty v := by
+  intro occ
+  induction occ with
+  | nil => intro _ h2; exact h2 (by intro ap h; cases h)
+  | cons ap rest ih =>
+    intro h1 h2
+    obtain ⟨a, p⟩ := ap
+    simp only [readRef]
+    have ih' := fun hx => ih (fun ap hap => h1 ap (List.mem_cons_of_mem _ hap)) hx
+    cases hf : m.findClass u a.tgt.kind with
+    | none =>
+      apply ih'
+      intro hrest
+      apply h2
+      intro ap hap tc htc
+      simp only [List.mem_cons] at hap
+      rcases hap with rfl | hap
+      · rw [hf] at htc; cases htc
+      · exact hrest ap hap tc htc
+    | some tc =>
+      simp only
+      cases hp : tc.rows.find? (rowsMatch u a c tc s) with
+      | some t => exact h1 (a, p) (by simp) tc t hf hp
+      | none =>
+        apply ih'
+        intro hrest
+        apply h2
+        intro ap hap tc' htc
+        simp only [List.mem_cons] at hap
+        rcases hap with rfl | hap
+        · rw [hf] at htc; simp only [Option.some.injEq] at htc; subst htc; exact hp
+        · exact hrest ap hap tc' htc
+
+theorem readCells_canon (u : UC) (m : MM) (c : ClassM) (s : List (Option Val)) :
+    ∀ (as : List (Name × Name)) (vs : List (Option Val)),
+    (∀ (j : Nat) (a : Name × Name) (v : Option Val), as[j]? = some a → vs[j]? = some v →
+      canonVal u a.2 (readCell u m c s a.1 v) = canonVal u a.2 v) →
+    canonVals u as (readCells u m c s as vs) = canonVals u as vs := by
+  intro as
+  induction as with
+  | nil => intro vs _; cases vs <;> rfl
+  | cons a as ih =>
+    intro vs h
+    cases vs with
+    | nil => rfl
+    | cons v vs =>
+      simp only [readCells, canonVals]
+      rw [h 0 a v rfl rfl, ih vs (fun j a' v' ha hv => h (j + 1) a' v' (by simpa using ha) (by simpa using hv))]
+
+/-- a metamodel whose links and referential cells agree is a fixed point of reading through links -/
+theorem readsFixed_of_resolved (u : UC) (m : MM) (h : ReadsResolved u m) : m.ReadsFixed u := by
+  intro c hc s hs
+  unfold readRow
+  apply readCells_canon
+  intro j a v ha hv
+  have hvj : (s[j]?).join = v := by rw [hv]; rfl
+  unfold readCell
+  by_cases he : (refOccurrences u m c.kind a.1).isEmpty = true
+  · simp [he]
+  · simp only [he, Bool.false_eq_true, if_false]
+    have hne : refOccurrences u m c.kind a.1 ≠ [] := by intro e; rw [e] at he; simp at he
+    apply readRef_canon
+    · intro ap hap tc t htc ht
+      rw [← hvj]; exact h.partner c hc s hs j a ha ap hap tc t htc ht
+    · intro hall
+      rw [← hvj]; exact h.alone c hc s hs j a ha hne hall
+
+/-- without associations nothing is read through links -/
+theorem readsFixed_no_assocs (u : UC) (m : MM) (h : m.assocs = []) : m.ReadsFixed u := by
+  intro c _ s _
+  unfold readRow
+  apply readCells_canon
+  intro j a v _ _
+  simp [readCell, refOccurrences, h]
 
 /-- the type a key column resolves to -/
 def colType (u : UC) (c : ClassM) (col : Option Nat) : Option Ty :=
